@@ -3,7 +3,7 @@
 # claimed property's quick check with evidence/replays redirected to a scratch dir, undo it.
 # Writes /verif/seeded/RESULTS.tsv :  seeded-id <tab> property <tab> exit <tab> first violation signature
 cd /verif || exit 2
-out=/verif/seeded/RESULTS.tsv
+out=${XSIM_SEEDED_OUT:-/verif/seeded/RESULTS.tsv}
 only="$1"
 [ -z "$only" ] && : > $out
 props="C01 C04 C05 C06 C08 C09 C10 C11 C12 C15 C16"
